@@ -395,8 +395,12 @@ class H5Writer:
                         "Property Groups IDs",
                         "Concatenated object IDs",
                     ]
-                    or value is None
                 ):  # or key in Concatenator._attribute_map:
+                    continue
+
+                if value is None:
+                    if key in entity_handle.attrs:
+                        del entity_handle.attrs[key]
                     continue
 
                 if key in ["Association", "Primitive type"]:
